@@ -340,6 +340,12 @@ struct XUtils : Engine {
         { cJSON* tree = build_tree(D[d]); cJSON* holder = LIB(cJSON_CreateObject()); LIBV(cJSON_AddItemReferenceToObject(holder, "alias", tree)); if (tree->child) LIBV(cJSON_AddItemReferenceToObject(holder, "alias-of-child", tree->child));
           cJSON* harr = LIB(cJSON_CreateArray()); LIBV(cJSON_AddItemReferenceToArray(harr, tree)); LIBV(cJSON_AddItemToObject(holder, "list", harr)); LIBV(cJSON_AddItemToObject(holder, "real", tree));
           construct_rec(d, D[d], tree, "/real", holder, false); LIBV(cJSON_Delete(holder)); }
+        // once more with user-supplied allocation hooks installed (blocks with a header, no realloc): the constructed pointers must be the same, and
+        // every block the construction uses has to come from and go back to the hooks -- a direct malloc/realloc/free on one of them corrupts the user's heap
+        { uint64_t libc0 = L.libc_from_lib, re0 = L.reallocs; install_hooks(HK_CUSTOM);
+          construct_rec(d, D[d], Dreal[d], ""); if (d < DrealNamed.size()) construct_rec(d, D[d], DrealNamed[d], "", DrealNamed[d]);
+          bool bypass = L.libc_from_lib != libc0 || L.reallocs != re0; install_hooks(HK_DEFAULT);
+          if (bypass) V("memory:hooks-bypassed", "FindPointerFromObjectTo used the C library allocator directly while custom hooks are installed (" + std::to_string(L.libc_from_lib - libc0) + " calls, " + std::to_string(L.reallocs - re0) + " reallocs) in " + rv_text(D[d]).substr(0, 200)); }
         size_t other = (d + 1) % D.size(); char* s = LIB(cJSONUtils_FindPointerFromObjectTo(Dreal[d], Dreal[other]));
         if (s) { V("pointer:construct-foreign", "FindPointerFromObjectTo returned \"" + printable(s) + "\" for a node outside the tree"); LIBV(cJSON_free(s)); }
         if (LIB(cJSONUtils_FindPointerFromObjectTo(nullptr, Dreal[d])) || LIB(cJSONUtils_FindPointerFromObjectTo(Dreal[d], nullptr))) V("pointer:construct-null-arg", "NULL argument accepted");
